@@ -861,20 +861,22 @@ func setPos(node ast.Node, pos ast.Pos) {
 	}
 }
 
+// (the relational operators bind tighter than the equality operators, as in
+// the language reference: $t == $a > 3 is $t == ($a > 3).)
 var precedence = map[itemType]int{
-	itemNot:    6,
-	itemNegate: 6,
-	itemMul:    5,
-	itemDiv:    5,
-	itemMod:    5,
-	itemAdd:    4,
-	itemSub:    4,
+	itemNot:    7,
+	itemNegate: 7,
+	itemMul:    6,
+	itemDiv:    6,
+	itemMod:    6,
+	itemAdd:    5,
+	itemSub:    5,
+	itemGt:     4,
+	itemGte:    4,
+	itemLt:     4,
+	itemLte:    4,
 	itemEq:     3,
 	itemNotEq:  3,
-	itemGt:     3,
-	itemGte:    3,
-	itemLt:     3,
-	itemLte:    3,
 	itemAnd:    2,
 	itemOr:     1,
 	itemElvis:  0,
